@@ -254,7 +254,18 @@ def register_dataclass_type_with_jax_tree_util(data_class):
         in instance.__dict__.
     """
     flatten = lambda d: tuple(zip(*sorted(d.__dict__.items())))[::-1]
-    unflatten = lambda keys, values: data_class(**dict(zip(keys, values)))
+    field_names = frozenset(f.name for f in dataclasses.fields(data_class))
+
+    def unflatten(keys, values):
+        # instance attributes that are not dataclass fields (e.g. cached lnZ, mu of a
+        # GaussianMeasure) cannot go through the constructor: restore them afterwards.
+        kwargs = dict(zip(keys, values))
+        obj = data_class(**{k: v for k, v in kwargs.items() if k in field_names})
+        for k, v in kwargs.items():
+            if k not in field_names:
+                setattr(obj, k, v)
+        return obj
+
     try:
         jax.tree_util.register_pytree_node(
             nodetype=data_class, flatten_func=flatten, unflatten_func=unflatten
